@@ -1,6 +1,6 @@
 import numpy as np, warnings
 warnings.simplefilter('ignore')
-exec(open('/tmp/w/spike1.py').read().split("shape=(7,9); C=3")[0])
+exec(open('/verif/design_spikes/spike1.py').read().split("shape=(7,9); C=3")[0])
 from menpo.transform import ThinPlateSplines, PiecewiseAffine, Similarity, NonUniformScale
 def run(im, ops, tag):
     shape=im.shape; C=im.n_channels
